@@ -55,6 +55,7 @@ type c50Reply struct {
 	JSONBody   bool      // problem+json body (else plain text / empty)
 	StatusInJS bool      // repeat the status inside the problem document
 	V          int       // variant selector for ok bodies
+	M          int       // optional-member mask for ok bodies of orders / authorizations / challenges
 	Sub        *c50Reply `json:",omitempty"` // cancel-reply: the reply sent after cancelling
 }
 
@@ -64,6 +65,7 @@ type c50Op struct {
 	Bundle            bool // FetchCert / CreateOrderCert
 	OwnKey            bool // RevokeCert with the certificate key (JWK form)
 	PreCancel         bool // context already cancelled when the call is made
+	Polling           bool // the POST script is a polling sequence (c50PollScript)
 	Group             int  // operations with equal Group run concurrently
 	Dir               []c50Reply
 	Head              []c50Reply
@@ -106,6 +108,9 @@ type c50Event struct {
 	Garbage           bool
 	Want              map[string]any // what an ok reply carried
 	NoReply           bool           // no response reached the client (drop, cancel-err, ctx-rejected)
+	Mask              int            // optional-member mask of an ok reply
+	rawBody           []byte         // an ok reply as sent, for the one-shot differential
+	rawHeader         http.Header
 }
 
 type c50RetryState struct {
@@ -202,7 +207,7 @@ func c50Resp(req *http.Request, code int, h http.Header, body []byte) *http.Resp
 }
 
 var c50OrderStatus = []string{"pending", "processing", "ready", "valid", "invalid"}
-var c50AuthzStatus = []string{"pending", "valid", "invalid", "deactivated", "valid"}
+var c50AuthzStatus = []string{"pending", "valid", "invalid", "deactivated", "valid", "expired", "pending"}
 var c50ChalStatus = []string{"pending", "processing", "valid", "invalid", ""}
 
 func c50FullType(t string) string {
@@ -213,7 +218,7 @@ func c50FullType(t string) string {
 }
 
 // okReply builds the normal reply of a step; it returns status, headers, body and the record of what was sent.
-func (s *c50Server) okReply(op *c50Op, step string, v int) (int, http.Header, []byte, map[string]any) {
+func (s *c50Server) okReply(op *c50Op, step string, v, mask int) (int, http.Header, []byte, map[string]any) {
 	t := s.tag()
 	ts := strconv.Itoa(t)
 	h := http.Header{}
@@ -261,22 +266,39 @@ func (s *c50Server) okReply(op *c50Op, step string, v int) (int, http.Header, []
 		o := &xacme.Order{
 			URI: loc, Status: st,
 			Identifiers: []xacme.AuthzID{{Type: "dns", Value: "host" + ts + ".example"}},
-			AuthzURLs:   []string{c50Base + "/authz/" + ts, c50Base + "/authz/" + ts + "b"},
+			AuthzURLs:   []string{c50Base + "/authz/" + ts},
 			FinalizeURL: c50Base + "/fin/" + ts,
 		}
-		m := map[string]any{
-			"status":         st,
-			"identifiers":    []map[string]string{{"type": "dns", "value": "host" + ts + ".example"}},
-			"authorizations": o.AuthzURLs,
-			"finalize":       o.FinalizeURL,
+		ids := []map[string]string{{"type": "dns", "value": "host" + ts + ".example"}}
+		if mask&16 != 0 {
+			o.Identifiers = append(o.Identifiers, xacme.AuthzID{Type: "dns", Value: "alt" + ts + ".example"})
+			ids = append(ids, map[string]string{"type": "dns", "value": "alt" + ts + ".example"})
+		}
+		if mask&32 != 0 {
+			o.AuthzURLs = append(o.AuthzURLs, c50Base+"/authz/"+ts+"b", c50Base+"/authz/"+ts+"c")
+		}
+		m := map[string]any{"status": st, "identifiers": ids, "authorizations": o.AuthzURLs, "finalize": o.FinalizeURL}
+		base := time.Date(2031, 1, 1, 0, 0, 0, 0, time.UTC).Add(time.Duration(t) * time.Hour)
+		if mask&1 != 0 {
+			o.Expires = base
+			m["expires"] = base.Format(time.RFC3339)
+		}
+		if mask&2 != 0 {
+			o.NotBefore = base.Add(time.Minute)
+			m["notBefore"] = o.NotBefore.Format(time.RFC3339)
+		}
+		if mask&4 != 0 {
+			o.NotAfter = base.Add(2 * time.Minute)
+			m["notAfter"] = o.NotAfter.Format(time.RFC3339)
 		}
 		if st == "valid" {
 			o.CertURL = c50Base + "/cert/" + ts
 			m["certificate"] = o.CertURL
 		}
-		if st == "invalid" {
-			m["error"] = map[string]any{"type": "urn:ietf:params:acme:error:unauthorized", "detail": "order " + ts + " failed", "status": 403}
-			want["orderErrDetail"] = "order " + ts + " failed"
+		if mask&8 != 0 || (st == "invalid" && mask&64 == 0) {
+			// RFC 8555 7.1.3: "error": the error that occurred while processing the order, if any
+			o.Error = &xacme.Error{StatusCode: 403, ProblemType: "urn:ietf:params:acme:error:unauthorized", Detail: "order " + ts + " failed"}
+			m["error"] = map[string]any{"type": o.Error.ProblemType, "detail": o.Error.Detail, "status": 403}
 		}
 		body, _ = json.Marshal(m)
 		if step == "newOrder" {
@@ -286,27 +308,55 @@ func (s *c50Server) okReply(op *c50Op, step string, v int) (int, http.Header, []
 		h.Set("Retry-After", c50PastDate)
 		want["order"] = o
 	case "authz":
-		st := c50AuthzStatus[v%5]
+		st := c50AuthzStatus[v%len(c50AuthzStatus)]
 		if op.Kind == "WaitAuthorization" && v%3 == 0 {
 			code = 202
 		}
-		chalStatus := "pending"
-		if st == "valid" || st == "invalid" {
-			chalStatus = st
+		a := &xacme.Authorization{Status: st, Identifier: xacme.AuthzID{Type: "dns", Value: "host" + ts + ".example"}}
+		m := map[string]any{"status": st, "identifier": map[string]string{"type": "dns", "value": a.Identifier.Value}}
+		var problems []string // in the order AuthorizationError lists them: the authorization's own, then the challenges'
+		if mask&1 != 0 {
+			a.Wildcard = true
+			m["wildcard"] = true
 		}
-		m := map[string]any{
-			"status":     st,
-			"identifier": map[string]string{"type": "dns", "value": "host" + ts + ".example"},
-			"challenges": []map[string]any{
-				{"type": "http-01", "url": c50Base + "/chal/" + ts, "token": "tok" + ts, "status": chalStatus},
-				{"type": "dns-01", "url": c50Base + "/chal/" + ts + "d", "token": "tok" + ts + "d", "status": "pending"},
-			},
+		if mask&2 != 0 {
+			a.Expires = time.Date(2031, 1, 1, 0, 0, 0, 0, time.UTC).Add(time.Duration(t) * time.Hour)
+			m["expires"] = a.Expires.Format(time.RFC3339)
 		}
+		if mask&4 != 0 {
+			d := "authorization " + ts + " problem"
+			m["error"] = map[string]any{"type": "urn:ietf:params:acme:error:unauthorized", "detail": d, "status": 403}
+			problems = append(problems, d)
+		}
+		nChal := 1 + (mask>>5)%3
+		var chals []map[string]any
+		for i := 0; i < nChal; i++ {
+			is := strconv.Itoa(i)
+			ch := &xacme.Challenge{Type: []string{"http-01", "dns-01", "tls-alpn-01"}[i], URI: c50Base + "/chal/" + ts + "x" + is, Token: "tok" + ts + "x" + is, Status: "pending"}
+			if i == 0 {
+				switch {
+				case st == "valid" || st == "invalid":
+					ch.Status = st
+				case mask&128 != 0:
+					ch.Status = "processing"
+				}
+			}
+			cm := map[string]any{"type": ch.Type, "url": ch.URI, "token": ch.Token, "status": ch.Status}
+			if (i == 0 && mask&8 != 0) || (i == 1 && mask&16 != 0) {
+				// RFC 8555 8.2: errors of failed validation attempts are recorded while a challenge is processing
+				d := "challenge " + ts + "x" + is + " attempt failed"
+				ch.Error = &xacme.Error{StatusCode: 400, ProblemType: "urn:ietf:params:acme:error:connection", Detail: d}
+				cm["error"] = map[string]any{"type": "urn:ietf:params:acme:error:connection", "detail": d, "status": 400}
+				problems = append(problems, d)
+			}
+			a.Challenges = append(a.Challenges, ch)
+			chals = append(chals, cm)
+		}
+		m["challenges"] = chals
 		body, _ = json.Marshal(m)
 		h.Set("Retry-After", c50PastDate)
-		want["authzStatus"] = st
-		want["authzID"] = "host" + ts + ".example"
-		want["chalToken"] = "tok" + ts
+		want["authz"] = a
+		want["problems"] = problems
 	case "chal":
 		st := c50ChalStatus[v%5]
 		if v%2 == 1 {
@@ -528,13 +578,15 @@ func (s *c50Server) RoundTrip(req *http.Request) (*http.Response, error) {
 			op.endPendingCalls()
 		}
 	case spec.Kind == "ok":
-		code, h, rbody, evn.Want = s.okReply(op, step, spec.V)
+		code, h, rbody, evn.Want = s.okReply(op, step, spec.V, spec.M)
+		evn.Mask = spec.M
+		evn.rawBody, evn.rawHeader = rbody, h.Clone()
 		evn.OK = true
 		if step == "dir" && s.cachedWebsite == "" {
 			s.cachedWebsite, _ = evn.Want["website"].(string) // Discover caches the first successful result
 		}
 	case spec.Kind == "garbage":
-		code, h, _, _ = s.okReply(op, step, spec.V)
+		code, h, _, _ = s.okReply(op, step, spec.V, spec.M)
 		rbody = []byte("<html>this is not what you are looking for</html>")
 		evn.OK, evn.Garbage = true, true
 	default:
@@ -649,6 +701,56 @@ var c50ReplyKinds = []string{
 	"odd2xx", "drop", "cancel-err", "cancel-reply", "garbage",
 }
 
+// c50GenMask draws which optional members an ok reply carries (fair bits).
+func c50GenMask(rt *rapid.T, label string) int {
+	m := 0
+	for i, b := range rapid.SliceOfN(rapid.Bool(), 8, 8).Draw(rt, label) {
+		if b {
+			m |= 1 << i
+		}
+	}
+	return m
+}
+
+// c50PollScript draws the POST script of a polling call: a few non-final
+// replies (whose optional members differ from reply to reply), now and then a
+// retriable failure or an unparsable body in between, then a final reply.
+func c50PollScript(rt *rapid.T, l, kind string, kidPreset bool) []c50Reply {
+	var out []c50Reply
+	ok := func(label string, vs []int) c50Reply {
+		return c50Reply{Kind: "ok", Nonce: rapid.IntRange(0, 3).Draw(rt, label+".nonce") != 0, V: rapid.SampledFrom(vs).Draw(rt, label+".v"), M: c50GenMask(rt, label+".members")}
+	}
+	if !kidPreset {
+		out = append(out, ok(l+".lookup", []int{0, 1})) // consumed by the implicit account lookup
+	}
+	nonFinal, final := []int{0, 1}, []int{2, 3, 3, 4} // order: pending, processing | ready, valid, invalid
+	if kind == "WaitAuthorization" {
+		nonFinal, final = []int{0, 3, 5, 6}, []int{1, 2, 4} // pending, deactivated, expired | valid, invalid
+	}
+	if kind == "CreateOrderCert" {
+		out = append(out, ok(l+".finalize", []int{0, 1, 1, 4, 2})) // the finalize reply itself
+	}
+	for j, n := 0, rapid.IntRange(1, 4).Draw(rt, l+".nPolls"); j < n; j++ {
+		lj := fmt.Sprintf("%s.poll%d", l, j)
+		switch rapid.IntRange(0, 7).Draw(rt, lj+".glitch") {
+		case 3:
+			g := ok(lj+".garbage", nonFinal)
+			g.Kind = "garbage"
+			out = append(out, g)
+		case 5:
+			out = append(out, c50Reply{Kind: "5xx", Status: 503, Nonce: true, ProbType: "serverInternal", JSONBody: true})
+		case 6:
+			out = append(out, c50Reply{Kind: "badNonce", Status: 400, Nonce: true, ProbType: "badNonce", JSONBody: true})
+		}
+		out = append(out, ok(lj, nonFinal))
+	}
+	out = append(out, ok(l+".final", final))
+	if kind == "CreateOrderCert" {
+		out = append(out, ok(l+".cert", []int{0, 1, 2}))
+	}
+	return out
+}
+
 func c50GenReply(rt *rapid.T, label string, head bool, allowCancel bool) c50Reply {
 	r := c50Reply{}
 	r.Kind = rapid.SampledFrom(c50ReplyKinds).Draw(rt, label+".kind")
@@ -657,6 +759,7 @@ func c50GenReply(rt *rapid.T, label string, head bool, allowCancel bool) c50Repl
 	}
 	r.Nonce = rapid.IntRange(0, 3).Draw(rt, label+".nonce") != 0
 	r.V = rapid.IntRange(0, 34).Draw(rt, label+".v")
+	r.M = c50GenMask(rt, label+".members")
 	fill := func(r *c50Reply, label string) {
 		switch r.Kind {
 		case "badNonce":
@@ -701,7 +804,7 @@ func c50GenReply(rt *rapid.T, label string, head bool, allowCancel bool) c50Repl
 var c50OpKinds = []string{
 	"Discover", "Register", "Register", "GetReg", "UpdateReg", "DeactivateReg",
 	"AuthorizeOrder", "AuthorizeOrder", "GetOrder", "WaitOrder", "WaitOrder",
-	"GetAuthorization", "GetAuthorization", "WaitAuthorization", "RevokeAuthorization",
+	"GetAuthorization", "GetAuthorization", "WaitAuthorization", "WaitAuthorization", "WaitAuthorization", "RevokeAuthorization",
 	"Accept", "Accept", "GetChallenge",
 	"CreateOrderCert", "CreateOrderCert", "CreateOrderCert", "FetchCert", "FetchCert",
 	"RevokeCert", "RevokeCert", "ListCertAlternates",
@@ -747,6 +850,10 @@ func c50GenSession(rt *rapid.T) *c50Session {
 			for j, n := 0, rapid.IntRange(0, 6).Draw(rt, l+".nPost"); j < n; j++ {
 				op.Post = append(op.Post, c50GenReply(rt, fmt.Sprintf("%s.post%d", l, j), false, true))
 			}
+		}
+		if (op.Kind == "WaitAuthorization" || op.Kind == "WaitOrder" || op.Kind == "CreateOrderCert") && rapid.Bool().Draw(rt, l+".polling") {
+			op.Post = c50PollScript(rt, l, op.Kind, s.KIDPreset || i > 0)
+			op.Polling = true
 		}
 		if rapid.Bool().Draw(rt, l+".stops") {
 			op.StopAt = rapid.IntRange(1, 4).Draw(rt, l+".stopAt")
@@ -993,6 +1100,9 @@ func c50Expect(op *c50Op, cachedWebsite string) error {
 				if !errors.As(err, &oe) || oe.Status != "invalid" || oe.OrderURL != wo.URI {
 					return bad("want *OrderError for the invalid order")
 				}
+				if why := c50ErrDiff(oe.Problem, wo.Error); why != "" {
+					return bad("OrderError.Problem differs from the final reply: " + why)
+				}
 				return nil
 			default:
 				return bad("WaitOrder returned although the final reply was not in a final state")
@@ -1002,25 +1112,40 @@ func c50Expect(op *c50Op, cachedWebsite string) error {
 			return bad("want the order of the final reply")
 		}
 		o, _ := res.(*xacme.Order)
-		if o == nil || o.URI != wo.URI || o.Status != wo.Status || o.FinalizeURL != wo.FinalizeURL || o.CertURL != wo.CertURL ||
-			!reflect.DeepEqual(o.AuthzURLs, wo.AuthzURLs) || !reflect.DeepEqual(o.Identifiers, wo.Identifiers) {
-			return bad(fmt.Sprintf("order differs from the final reply %+v", wo))
+		if why := c50OrderDiff(o, wo); why != "" {
+			return bad(fmt.Sprintf("order differs from the final reply (%s), want %+v", why, wo))
 		}
-		if wo.Status == "invalid" && (o.Error == nil || o.Error.Detail != L.Want["orderErrDetail"]) {
-			return bad("order error differs from the final reply")
+		if op.Kind == "WaitOrder" {
+			if why := c50OneShotDiff(op, L, res); why != "" {
+				return bad("WaitOrder result differs from what GetOrder returns for the final reply alone: " + why)
+			}
 		}
 	case "GetAuthorization", "WaitAuthorization":
 		if L.Step != "authz" {
 			return bad("the final request is not the authz step")
 		}
-		st := L.Want["authzStatus"].(string)
+		wa := *(L.Want["authz"].(*xacme.Authorization))
+		wa.URI = L.URL
+		problems, _ := L.Want["problems"].([]string)
 		if op.Kind == "WaitAuthorization" {
-			switch st {
+			switch wa.Status {
 			case "valid":
 			case "invalid":
 				var aerr *xacme.AuthorizationError
-				if !errors.As(err, &aerr) || aerr.Identifier != L.Want["authzID"] {
+				if !errors.As(err, &aerr) || aerr.Identifier != wa.Identifier.Value || aerr.URI != L.URL {
 					return bad("want *AuthorizationError for the invalid authorization")
+				}
+				var got []string
+				for _, e := range aerr.Errors {
+					var ae *xacme.Error
+					if errors.As(e, &ae) {
+						got = append(got, ae.Detail)
+					} else {
+						got = append(got, e.Error())
+					}
+				}
+				if !reflect.DeepEqual(got, problems) && !(len(got) == 0 && len(problems) == 0) {
+					return bad(fmt.Sprintf("AuthorizationError lists problems %q, the final reply carries %q", got, problems))
 				}
 				return nil
 			default:
@@ -1031,8 +1156,13 @@ func c50Expect(op *c50Op, cachedWebsite string) error {
 			return bad("want the authorization of the final reply")
 		}
 		a, _ := res.(*xacme.Authorization)
-		if a == nil || a.Status != st || a.Identifier.Value != L.Want["authzID"] || a.URI != L.URL || len(a.Challenges) != 2 || a.Challenges[0].Token != L.Want["chalToken"] {
-			return bad("authorization differs from the final reply")
+		if why := c50AuthzDiff(a, &wa); why != "" {
+			return bad(fmt.Sprintf("authorization differs from the final reply (%s)", why))
+		}
+		if op.Kind == "WaitAuthorization" {
+			if why := c50OneShotDiff(op, L, res); why != "" {
+				return bad("WaitAuthorization result differs from what GetAuthorization returns for the final reply alone: " + why)
+			}
 		}
 	case "Accept", "GetChallenge":
 		if L.Step != "chal" || err != nil {
@@ -1048,6 +1178,9 @@ func c50Expect(op *c50Op, cachedWebsite string) error {
 			wo := L.Want["order"].(*xacme.Order)
 			var oe *xacme.OrderError
 			if (wo.Status == "ready" || wo.Status == "invalid") && errors.As(err, &oe) && oe.Status == wo.Status {
+				if why := c50ErrDiff(oe.Problem, wo.Error); why != "" {
+					return bad("OrderError.Problem differs from the final reply: " + why)
+				}
 				return nil
 			}
 			return bad("want *OrderError: the order never became valid")
@@ -1092,6 +1225,132 @@ func c50Expect(op *c50Op, cachedWebsite string) error {
 		}
 	}
 	return nil
+}
+
+func c50ErrDiff(got, want *xacme.Error) string {
+	switch {
+	case got == nil && want == nil:
+		return ""
+	case got == nil || want == nil:
+		return fmt.Sprintf("error %v, want %v", got, want)
+	case got.ProblemType != want.ProblemType || got.Detail != want.Detail || got.StatusCode != want.StatusCode:
+		return fmt.Sprintf("error {%d %s %q}, want {%d %s %q}", got.StatusCode, got.ProblemType, got.Detail, want.StatusCode, want.ProblemType, want.Detail)
+	}
+	return ""
+}
+
+func c50OrderDiff(o, w *xacme.Order) string {
+	switch {
+	case o == nil:
+		return "nil order"
+	case o.URI != w.URI:
+		return "URI"
+	case o.Status != w.Status:
+		return "Status"
+	case !o.Expires.Equal(w.Expires):
+		return fmt.Sprintf("Expires %v, want %v", o.Expires, w.Expires)
+	case !o.NotBefore.Equal(w.NotBefore):
+		return fmt.Sprintf("NotBefore %v, want %v", o.NotBefore, w.NotBefore)
+	case !o.NotAfter.Equal(w.NotAfter):
+		return fmt.Sprintf("NotAfter %v, want %v", o.NotAfter, w.NotAfter)
+	case !reflect.DeepEqual(o.Identifiers, w.Identifiers):
+		return fmt.Sprintf("Identifiers %v, want %v", o.Identifiers, w.Identifiers)
+	case !reflect.DeepEqual(o.AuthzURLs, w.AuthzURLs):
+		return fmt.Sprintf("AuthzURLs %v, want %v", o.AuthzURLs, w.AuthzURLs)
+	case o.FinalizeURL != w.FinalizeURL:
+		return "FinalizeURL"
+	case o.CertURL != w.CertURL:
+		return "CertURL"
+	}
+	return c50ErrDiff(o.Error, w.Error)
+}
+
+func c50AuthzDiff(a, w *xacme.Authorization) string {
+	switch {
+	case a == nil:
+		return "nil authorization"
+	case a.URI != w.URI:
+		return "URI"
+	case a.Status != w.Status:
+		return "Status"
+	case a.Identifier != w.Identifier:
+		return "Identifier"
+	case a.Wildcard != w.Wildcard:
+		return fmt.Sprintf("Wildcard %v, want %v", a.Wildcard, w.Wildcard)
+	case !a.Expires.Equal(w.Expires):
+		return fmt.Sprintf("Expires %v, want %v", a.Expires, w.Expires)
+	case len(a.Challenges) != len(w.Challenges):
+		return fmt.Sprintf("%d challenges, want %d", len(a.Challenges), len(w.Challenges))
+	case len(a.Combinations) != 0:
+		return "Combinations"
+	}
+	for i, ch := range a.Challenges {
+		wc := w.Challenges[i]
+		if ch == nil || ch.Type != wc.Type || ch.URI != wc.URI || ch.Token != wc.Token || ch.Status != wc.Status {
+			return fmt.Sprintf("challenge %d is %+v, want %+v", i, ch, wc)
+		}
+		var ge, we *xacme.Error
+		errors.As(ch.Error, &ge)
+		errors.As(wc.Error, &we)
+		if ch.Error != nil && ge == nil {
+			return fmt.Sprintf("challenge %d error has type %T", i, ch.Error)
+		}
+		if why := c50ErrDiff(ge, we); why != "" {
+			return fmt.Sprintf("challenge %d: %s", i, why)
+		}
+	}
+	return ""
+}
+
+// c50OneShot serves exactly one stored reply to a fresh client.
+type c50OneShot struct {
+	e *c50Event
+}
+
+func (t c50OneShot) RoundTrip(req *http.Request) (*http.Response, error) {
+	if req.Body != nil {
+		io.Copy(io.Discard, req.Body)
+		req.Body.Close()
+	}
+	h := http.Header{}
+	h.Set("Replay-Nonce", "one-shot-nonce")
+	switch {
+	case req.Method == "GET":
+		b, _ := json.Marshal(map[string]string{"newNonce": c50Base + "/new-nonce", "newAccount": c50Base + "/new-acct", "newOrder": c50Base + "/new-order"})
+		return c50Resp(req, 200, h, b), nil
+	case req.Method == "HEAD":
+		return c50Resp(req, 200, h, nil), nil
+	}
+	for k, v := range t.e.rawHeader {
+		if k != "Replay-Nonce" {
+			h[k] = v
+		}
+	}
+	return c50Resp(req, 200, h, t.e.rawBody), nil
+}
+
+// c50OneShotDiff is the differential for polling calls: what the same client
+// returns for a single GetAuthorization / GetOrder of the final reply alone.
+func c50OneShotDiff(op *c50Op, L *c50Event, res any) string {
+	cl := &xacme.Client{
+		Key: c50AcctKey, KID: xacme.KeyID(c50Base + "/acct/one-shot"), DirectoryURL: c50Base + "/dir",
+		HTTPClient:   &http.Client{Transport: c50OneShot{L}},
+		RetryBackoff: func(int, *http.Request, *http.Response) time.Duration { return 0 },
+	}
+	var ref any
+	var err error
+	if L.Step == "authz" {
+		ref, err = cl.GetAuthorization(context.Background(), L.URL)
+	} else {
+		ref, err = cl.GetOrder(context.Background(), L.URL)
+	}
+	if err != nil {
+		return "" // the one-shot call is no reference here (harness-side); the explicit expectation stands
+	}
+	if !reflect.DeepEqual(res, ref) {
+		return fmt.Sprintf("polled %s vs one-shot %s", c50Render(res), c50Render(ref))
+	}
+	return ""
 }
 
 func c50Render(v any) string {
@@ -1206,7 +1465,24 @@ func c50RunSession(rt *rapid.T, c *ev.Collector, sess *c50Session) {
 			cancels++
 			classSet["ctx:cancelled"] = true
 		}
+		var prevPoll *c50Event
 		for _, e := range op.trace {
+			if (e.Step == "authz" || e.Step == "order") && e.OK && !e.Garbage && !e.NoReply {
+				if prevPoll != nil && prevPoll.URL == e.URL {
+					names := []string{"expires", "notBefore", "notAfter", "error", "identifiers", "authorizations", "-", "-"}
+					if e.Step == "authz" {
+						names = []string{"wildcard", "expires", "error", "challenge0.error", "challenge1.error", "challenges", "challenges", "challenge0.status"}
+					}
+					for b := 0; b < 8; b++ {
+						was, is := prevPoll.Mask>>b&1, e.Mask>>b&1
+						if was != is && names[b] != "-" {
+							classSet[fmt.Sprintf("poll:%s:%s:%s", op.Kind, names[b], []string{"present->absent", "absent->present"}[is])] = true
+						}
+					}
+					classSet["poll:"+op.Kind+":multi-poll"] = true
+				}
+				prevPoll = e
+			}
 			classSet["reply:"+e.Step+":"+e.Kind] = true
 			classSet["kind:"+e.Kind] = true
 		}
